@@ -160,8 +160,35 @@ func (d *Dumper) obj(v reflect.Value, path string, parent interface{}) map[strin
 			out[m.Name] = r
 		}
 	}
+	// exported plain fields (Range.Entries are handled below, Pattern.Pattern, Bit.Position ...)
+	if v.Kind() == reflect.Ptr && v.Elem().Kind() == reflect.Struct {
+		st := v.Elem()
+		for i := 0; i < st.NumField(); i++ {
+			f := st.Type().Field(i)
+			if f.PkgPath != "" {
+				continue
+			}
+			switch f.Type.Kind() {
+			case reflect.String:
+				out["."+f.Name] = st.Field(i).String()
+			case reflect.Int, reflect.Int64:
+				out["."+f.Name] = st.Field(i).Int()
+			case reflect.Bool:
+				out["."+f.Name] = st.Field(i).Bool()
+			}
+		}
+	}
 	// things needing arguments or special care
 	switch x := v.Interface().(type) {
+	case *meta.Range:
+		func() {
+			defer func() {
+				if r := recover(); r != nil {
+					d.Panics = append(d.Panics, fmt.Sprintf("%s.String(): %v", path, r))
+				}
+			}()
+			out["String"] = x.String()
+		}()
 	case *meta.Type:
 		f := safeFormat(x)
 		if f == val.FmtLeafRef || f == val.FmtLeafRefList {
